@@ -300,6 +300,17 @@ func extractUpdateScripts(f *ast.File) ([]bootLit, error) {
 		}
 		return strLit(c.Args[0])
 	}
+	migVerTables = [2]string{"", ""}
+	ast.Inspect(fd.Body, func(n ast.Node) bool {
+		if as, ok := n.(*ast.AssignStmt); ok && as.Tok == token.DEFINE && len(as.Lhs) == 1 && len(as.Rhs) == 1 {
+			if id, ok := as.Lhs[0].(*ast.Ident); ok && id.Name == "verTable" {
+				if s, ok := strLit(as.Rhs[0]); ok {
+					migVerTables[0] = s
+				}
+			}
+		}
+		return true
+	})
 	for _, st := range fd.Body.List {
 		if lit, ok := execLit(st); ok {
 			if stage != 0 {
@@ -315,6 +326,13 @@ func extractUpdateScripts(f *ast.File) ([]bootLit, error) {
 				for _, inner := range x.Body.List {
 					if lit, ok := execLit(inner); ok {
 						boots = append(boots, bootLit{lit, true})
+					}
+					if as, ok := inner.(*ast.AssignStmt); ok && len(as.Lhs) == 1 && len(as.Rhs) == 1 {
+						if id, ok := as.Lhs[0].(*ast.Ident); ok && id.Name == "verTable" {
+							if s, ok := strLit(as.Rhs[0]); ok {
+								migVerTables[1] = s
+							}
+						}
 					}
 				}
 			}
@@ -362,6 +380,7 @@ func extractUpdateScripts(f *ast.File) ([]bootLit, error) {
 
 var migVersionRead string
 var migLoopShape []string
+var migVerTables [2]string // the table the version is read from: without / with a configured cluster
 
 func extractEmbeds() (map[string]string, error) {
 	b, err := os.ReadFile(filepath.Join(repo, "ctrl/qryn/sql/sql.go"))
@@ -538,6 +557,10 @@ func genMigrations() (string, error) {
 		shape = append(shape, leanStr(x))
 	}
 	fmt.Fprintf(&b, "/-- `updateScripts`: the format of the version read, and the script loop (header, then its statements with\n    logger calls dropped and `if err != nil { …; return err }` normalised) -/\ndef versionRead : String := %s\ndef loopShape : List String := [%s]\n\n", leanStr(migVersionRead), strings.Join(shape, ",\n  "))
+	if migVerTables[1] == "" {
+		migVerTables[1] = migVerTables[0] // no assignment in the cluster branch: the local table is read
+	}
+	fmt.Fprintf(&b, "/-- the table the version is read from (`verTable`): without a cluster, with a configured cluster -/\ndef verTables : List String := [%s, %s]\n\n", leanStr(migVerTables[0]), leanStr(migVerTables[1]))
 	// CREATE DATABASE (cluster clause instantiated like InitDBTry does)
 	var body strings.Builder
 	for _, m := range migModes {
